@@ -65,7 +65,9 @@ def cases(draw, tier):
     case['dcs'] = dcs
     cons = []
     for _ in range(draw(st.sampled_from([0, 0, 0, 1, 1, 2, 3]))):
-        ck = draw(st.sampled_from(['fix_first', 'fix_second', 'fix_both', 'fix_type', 'forbid', 'fix_first_type', 'invalid']))
+        ck = draw(st.sampled_from(['fix_first', 'fix_second', 'fix_both', 'fix_type', 'forbid', 'fix_first_type', 'invalid',
+                                   'wit_first', 'wit_second', 'wit_both', 'wit_type', 'wit_both_type', 'wit_type_flip00',
+                                   'wit_forbid_unused']))
         cons.append({'k': ck, 'a': draw(st.integers(0, 30)), 'b': draw(st.integers(0, 30)), 'c': draw(st.integers(0, 30)),
                      't': draw(st.sampled_from(FIX_TYPES))})
     case['constraints'] = cons
@@ -97,6 +99,7 @@ def resolve_case(case):
     pats, mask = refsem.full_patterns(n)
     ops = _basis_ops(case['basis'])
     cols = list(case['cols'])
+    witness = []
     if case['kind'] == 'realisable' and G >= 1 and n >= 2 or (case['kind'] == 'realisable' and G >= 1 and n + G > 2 and n >= 1 and G >= 2):
         vals = list(pats)
         ok = True
@@ -118,6 +121,7 @@ def resolve_case(case):
                     break
                 code = norm[o % len(norm)]
             vals.append(_apply_code(code, vals[a], vals[b], mask))
+            witness.append((a, b, code))
         if ok and len(vals) > n:
             gates = vals[n:]
             cols = [gates[p % len(gates)] for p in case['out_pick']]
@@ -131,6 +135,31 @@ def resolve_case(case):
         g = internal[c['a'] % len(internal)]
         if c['k'] == 'invalid':
             calls.append(('invalid', c['a'] % 6, g, c['b'], c['c']))
+            continue
+        if c['k'].startswith('wit_'):
+            # constraints read off the circuit the target was built from: the constrained instance stays satisfiable
+            if len(witness) != G:
+                continue
+            wa, wb, wcode = witness[g - n]
+            wt = TYPE_OF_CODE[wcode]
+            if c['k'] == 'wit_first':
+                calls.append(('fix', g, wa, None, None))
+            elif c['k'] == 'wit_second':
+                calls.append(('fix', g, None, wb, None))
+            elif c['k'] == 'wit_both':
+                calls.append(('fix', g, wa, wb, None))
+            elif c['k'] == 'wit_type':
+                calls.append(('fix', g, wa if c['b'] % 2 else wb, None, wt))
+            elif c['k'] == 'wit_both_type':
+                calls.append(('fix', g, wa, wb, wt))
+            elif c['k'] == 'wit_type_flip00':
+                # the sibling operation that differs from the witness gate only on (0,0)
+                flipped = ('1' if wcode[0] == '0' else '0') + wcode[1:]
+                calls.append(('fix', g, wa, wb, TYPE_OF_CODE[flipped]))
+            else:
+                unused = [x for x in range(g) if x not in (wa, wb)]
+                if unused:
+                    calls.append(('forbid', unused[c['b'] % len(unused)], g))
             continue
         if g < 2:
             continue
